@@ -34,12 +34,12 @@ def _build(expr):
     return nfa_to_dfa(expression_to_nfa(expr))
 
 
-def _product(tree, ref, alphabet, agg, case_base):
+def _product(tree, ref, alphabet, agg, case_base, mk=None):
     """lock-step BFS of the real DFA and the derivative automaton"""
     from codelimit.common.gsm.Pattern import Pattern
 
     out = []
-    dfa = _build(top_expr(tree))
+    dfa = _build(mk() if mk else top_expr(tree))
     start = (dfa.start, ref)
     seen = {(id(dfa.start), ref)}
     frontier = [(dfa.start, ref, "")]
@@ -80,15 +80,22 @@ def _product(tree, ref, alphabet, agg, case_base):
     return out, len(seen)
 
 
-def eval_tree(tree, seqs, alphabet, agg):
-    """explore one pattern completely; returns list of (kind, sig, seq, detail)"""
+def eval_tree(tree, seqs, alphabet, agg, shared=False):
+    """explore one pattern completely; returns list of (kind, sig, seq, detail).
+    shared: the expression is built ONCE, equal sub-trees being one Python object, and that one object is handed to every
+    call (a language definition holds its pattern and operand lists for the life of the process)"""
     from codelimit.common.gsm import matcher
 
     tj = R.to_json(tree)
     ref = R.compile_tree(tree)
+    if shared:
+        the_expr = top_expr(tree, shared=True)
+        mk = lambda: the_expr
+    else:
+        mk = lambda: top_expr(tree)
     try:
         with core.time_limit(BUILD_LIMIT_S):
-            _build(top_expr(tree))
+            _build(mk())
     except RecursionError:
         agg.case({"pattern": tj, "seq": None}, True, "build:RecursionError", sample=False)
         return [("build-does-not-terminate", {"api": "build", "error": "RecursionError"}, None,
@@ -99,7 +106,7 @@ def eval_tree(tree, seqs, alphabet, agg):
                  f"building the matcher for {R.show(tree)} did not finish in {BUILD_LIMIT_S}s")]
     out = []
     # (b) product reachability
-    prod, nstates = _product(tree, ref, alphabet, agg, tj)
+    prod, nstates = _product(tree, ref, alphabet, agg, tj, mk)
     for kind, sig, path in prod:
         out.append((kind, sig, path, f"pattern {R.show(tree)} after {path!r}"))
     for i in range(nstates):
@@ -113,7 +120,7 @@ def eval_tree(tree, seqs, alphabet, agg):
         agg.case({"pattern": tj, "seq": seq}, nontrivial, (exp_member, exp_prefix), sample=(len(s) >= 3 and exp_member))
         for api in ("match", "nfa_match", "starts_with"):
             try:
-                got = getattr(matcher, api)(top_expr(tree), real.real_seq(s))
+                got = getattr(matcher, api)(mk(), real.real_seq(s))
             except RecursionError:
                 out.append(("api-recursion", {"api": api, "error": "RecursionError"}, seq, ""))
                 continue
@@ -137,12 +144,35 @@ def eval_tree(tree, seqs, alphabet, agg):
     return out
 
 
+def shared_trees(body_size):
+    """patterns in which one operand occurs TWICE (built as one shared object): op1(B) . op2(B), op1(B) | op2(B), op1(B) . c . op2(B)
+    for every body B up to body_size nodes over {a, b} and op in {identity, ?, *, +}"""
+    bodies = [t for sz in range(1, body_size + 1) for t in R.trees(sz, "ab")]
+    ops = [lambda x: x, lambda x: ("opt", x), lambda x: ("star", x), lambda x: ("plus", x)]
+    out = []
+    for b in bodies:
+        for o1 in ops:
+            for o2 in ops:
+                x, y = o1(b), o2(b)
+                out.append(("cat", x, y))
+                out.append(("alt", x, y))
+                out.append(("cat", x, ("cat", ("c",), y)))
+    return out
+
+
 WORD_ATOMS = {"a": "async", "b": ("tuple", 1), "c": "x"}  # a multi-character word, a tuple, a single character
 
 
 def _block(block, agg):
     if block[0] == "pairs":
         return _block_pairs(block, agg)
+    if block[0] == "shared":
+        _, body_size, lo, hi, seq_alpha, seq_len = block
+        seqs = R.sequences(seq_alpha, seq_len)
+        for tree in shared_trees(body_size)[lo:hi]:
+            for kind, sig, seq, detail in eval_tree(tree, seqs, seq_alpha, agg, shared=True):
+                agg.violation(kind, dict(sig, operands="shared"), {"pattern": R.to_json(tree), "seq": seq, "alphabet": seq_alpha, "shared": True}, detail)
+        return
     if block[0] == "words":
         real.ATOMS.clear()
         real.ATOMS.update(WORD_ATOMS)
@@ -254,8 +284,8 @@ def _replay_isolated(case):
     alpha = case.get("alphabet", "abc")
     seqs = [case["seq"]] if case.get("seq") is not None else [""]
     out = []
-    for kind, sig, seq, detail in eval_tree(tree, seqs, alpha, agg):
-        out.append({"kind": kind, "sig": sig, "detail": detail})
+    for kind, sig, seq, detail in eval_tree(tree, seqs, alpha, agg, shared=bool(case.get("shared"))):
+        out.append({"kind": kind, "sig": dict(sig, operands="shared") if case.get("shared") else sig, "detail": detail})
     return out
 
 
@@ -294,6 +324,13 @@ def run(ctx: core.Ctx):
         step = max(1, n // ctx.workers + 1)
         for lo in range(0, n, step):
             blocks.append(("words", "abc", size, lo, min(n, lo + step), "abc", 4))
+    # one operand object used twice in a pattern, the expression object reused for every call
+    body_size = ctx.pick(3, 4)
+    nsh = len(shared_trees(body_size))
+    ctx.bounds["shared_operands"] = {"body_size": body_size, "patterns": nsh, "sequences": f"all over abc up to length {ctx.pick(3, 4)} + product reachability to fixpoint"}
+    step = max(1, nsh // (ctx.workers * 2) + 1)
+    for lo in range(0, nsh, step):
+        blocks.append(("shared", body_size, lo, min(nsh, lo + step), "abc", ctx.pick(3, 4)))
     ctx.bounds["word_atoms"] = {k: repr(v) for k, v in WORD_ATOMS.items()}
     pair_size = 4  # 160 trees -> 25 440 ordered pairs (size 5 would be 655 000 forked children)
     npair = len(pair_trees(pair_size))
